@@ -766,7 +766,9 @@ class SpanNot(SpanBiQuery):
             super(SpanNot._Matcher, self).__init__(amm)
 
         def _get_spans(self):
-            if self.a.id() == self.b.id():
+            # The excluded query's matcher may be exhausted (or never have
+            # matched anything)
+            if self.b.is_active() and self.a.id() == self.b.id():
                 spans = []
                 bspans = self.b.spans()
                 for aspan in self.a.spans():
